@@ -1156,7 +1156,6 @@ theorem step_hb {K : Kind} {cfg : Cfg} {st : State} {m : Mon} (hi : Inv K cfg st
     · simp [Mon.next, leaderChange]; exact hi.leader
     · exact cntInv_frame hi.cnt rfl (by first | (simp [Mon.next]; done) | (simp [Mon.next]; exact hi.cnt.clock)) (by simp [Mon.next, effective]) (by simp [Mon.next])
     · exact flInv_frame hi.fl rfl rfl rfl (by simp [Mon.next, effective]) (by simp [Mon.next, rebuilds, effective, stopsRemote]) (by simp [Mon.next, rebuilds, effective, stopsRemote]) (by simp [Mon.next, rebuilds, effective, stopsRemote]) (by simp [Mon.next, rebuilds, effective, stopsRemote])
-  · exact flInv_frame hi.fl rfl rfl rfl (by simp [Mon.next, effective]) (by simp [Mon.next, rebuilds, effective, stopsRemote]) (by simp [Mon.next, rebuilds, effective, stopsRemote]) (by simp [Mon.next, rebuilds, effective, stopsRemote]) (by simp [Mon.next, rebuilds, effective, stopsRemote])
   | false =>
     refine ⟨{ st with hb := some (hbStep (st.hb.getD {}) ok now), clock := now }, rfl, ?_, rfl⟩
     apply inv_of_frame hi (st' := { st with hb := some (hbStep (st.hb.getD {}) ok now), clock := now })
@@ -1173,7 +1172,6 @@ theorem step_hb {K : Kind} {cfg : Cfg} {st : State} {m : Mon} (hi : Inv K cfg st
     · simp [Mon.next, leaderChange]; exact hi.leader
     · exact cntInv_frame hi.cnt rfl (by first | (simp [Mon.next]; done) | (simp [Mon.next]; exact hi.cnt.clock)) (by simp [Mon.next, effective]) (by simp [Mon.next])
     · exact flInv_frame hi.fl rfl rfl rfl (by simp [Mon.next, effective]) (by simp [Mon.next, rebuilds, effective, stopsRemote]) (by simp [Mon.next, rebuilds, effective, stopsRemote]) (by simp [Mon.next, rebuilds, effective, stopsRemote]) (by simp [Mon.next, rebuilds, effective, stopsRemote])
-  · exact flInv_frame hi.fl rfl rfl rfl (by simp [Mon.next, effective]) (by simp [Mon.next, rebuilds, effective, stopsRemote]) (by simp [Mon.next, rebuilds, effective, stopsRemote]) (by simp [Mon.next, rebuilds, effective, stopsRemote]) (by simp [Mon.next, rebuilds, effective, stopsRemote])
 
 theorem observe_unavail_noremote {cfg : Cfg} {st : State} {c : Cache} (hc : st.cache = some c) (hr : c.remote = none) :
     (observe cfg st).unavail = false := by
